@@ -63,7 +63,7 @@ fn quiet<R>(f: impl FnOnce() -> R) -> R {
 ///  sys_lin   F_i = a_i (z_i - r_i) + sum_j b_ij (z_j - r_j)
 ///  perm      (systems) the equations are listed in the order perm: output row i is equation perm[i] (same root, same Newton
 ///            iterates in exact arithmetic; the Jacobian is then NOT diagonally dominant as listed: the linear solve must pivot)
-pub struct Fam { name: String, n: usize, cx: bool, s: Cmplx, r: Vec<Cmplx>, a: Vec<Cmplx>, b: Vec<Cmplx>, k: Vec<Cmplx>, perm: Vec<usize>, nest: Option<Level>, np: usize, nmode: i64, nt: f64 }
+pub struct Fam { name: String, n: usize, cx: bool, s: Cmplx, r: Vec<Cmplx>, a: Vec<Cmplx>, b: Vec<Cmplx>, k: Vec<Cmplx>, perm: Vec<usize>, nest: Option<Level>, np: usize, nmode: i64, nt: f64, reent: i64, reuse: bool }
 impl Fam {
     fn from(case: &Value) -> Fam {
         let v = gets(case, "variant");
@@ -72,7 +72,9 @@ impl Fam {
               s: g("s").first().copied().unwrap_or(c(1.0, 0.0)), r: g("r"), a: g("a"), b: g("b"), k: g("k"),
               perm: case.get("perm").map(|p| ivec(p).iter().map(|x| *x as usize).collect()).unwrap_or_default(),
               nest: case.get("nest").filter(|v| v.is_object()).map(Level::from),
-              np: case.get("p").and_then(|v| v.as_u64()).unwrap_or(0) as usize, nmode: case.get("pm").and_then(|v| v.as_i64()).unwrap_or(0), nt: case.get("t").map(hexf).unwrap_or(0.0) }
+              np: case.get("p").and_then(|v| v.as_u64()).unwrap_or(0) as usize, nmode: case.get("pm").and_then(|v| v.as_i64()).unwrap_or(0), nt: case.get("t").map(hexf).unwrap_or(0.0), reent: case.get("reent").and_then(|v| v.as_i64()).unwrap_or(0),
+              // the inner result enters the function value only if the CASE limit leaves the inner solve room to converge (the same decision in every call of the case)
+              reuse: case.get("limit").and_then(|v| v.as_u64()).unwrap_or(0) >= 4 }
     }
     fn scalar(&self, z: Cmplx) -> Cmplx {
         match self.name.as_str() {
@@ -222,23 +224,58 @@ impl Nw {
         }
     }
     /// one solve; every closure call is recorded; a panic is data
-    fn solve(&self, fam: &Fam, variant: &str, rec: &Rec, cap: usize) -> Result<Result<Vec<Cmplx>, Vec<Cmplx>>, String> {
+    /// SAME-OBJECT re-entrancy (fam.reent): while this object is in the middle of a solve, its own user function calls solve on this very
+    /// object (1: inner problem t - tau(y) = 0, converges at once; 2: inner root-free problem, uses the whole budget, result discarded;
+    /// 3: a second object B is solved whose function calls back into this object).  tau(y) = y/2 + 1/4 is the closed-form inner result:
+    /// the returned correction s - tau is zero up to rounding, so the outer function keeps its analytic root.  The inner calls are not recorded.
+    fn reent(&self, fam: &Fam, variant: &str, cfg: &Cfg, y: &[Cmplx]) -> Vec<Cmplx> {
+        let zero = vec![c(0.0, 0.0); y.len()];
+        if fam.reent == 0 { return zero; }
+        let tau: Vec<Cmplx> = y.iter().map(|z| *z * 0.5 + c(0.25, 0.0)).collect();
+        let usable = fam.reuse;
+        let s = match fam.reent {
+            1 => self.plain_solve(variant, 1, &tau, None, usable),
+            2 => { let _ = self.plain_solve(variant, 2, &tau, None, usable); return zero; }
+            _ => { let b = Nw::new(variant, &cfg.guess, cfg.tol, cfg.delta, cfg.limit); b.plain_solve(variant, 1, &tau, Some(self), usable) }
+        };
+        if usable && s.len() == tau.len() { s.iter().zip(tau.iter()).map(|(a, b)| *a - *b).collect() } else { zero }
+    }
+    /// an unrecorded solve on this object; kind 1: t - tau (plus, with a callback object, the zero correction of a solve on THAT object), kind 2: root-free
+    fn plain_solve(&self, variant: &str, kind: i64, tau: &[Cmplx], callback: Option<&Nw>, usable: bool) -> Vec<Cmplx> {
+        let n = tau.len();
+        let val = |t: &[Cmplx], cx: bool| -> Vec<Cmplx> {
+            let mut v: Vec<Cmplx> = (0..n).map(|i| if kind == 1 { t[i] - tau[i] } else if !cx { t[i] * t[i] + c(1.0, 0.0) } else if n == 1 && matches!(variant, "cx") { cexp(t[i]) } else { c(t[i].abs_sqr() + 1.0, 0.0) }).collect();
+            if let Some(cb) = callback { let s2 = cb.plain_solve(variant, 1, tau, None, usable); if usable && s2.len() == n { for i in 0..n { v[i] = v[i] + (s2[i] - tau[i]); } } }
+            v };
+        let jv = |t: &[Cmplx], cx: bool| -> Vec<Cmplx> { let mut m = vec![c(0.0, 0.0); n * n]; for i in 0..n { m[i * n + i] = if kind == 1 { c(1.0, 0.0) } else if cx { c(2.0 * t[i].real, 0.0) } else { t[i] * 2.0 }; } m };
+        let take = |r: Result<Vec<Cmplx>, Vec<Cmplx>>| match r { Ok(v) => v, Err(v) => v };
+        match self {
+            Nw::F(o) => { let r = o.solve(&|x: f64| val(&[c(x, 0.0)], false)[0].real); vec![c(match r { Ok(v) => v, Err(v) => v }, 0.0)] }
+            Nw::C(o) => { let r = o.solve(&|z: Cmplx| val(&[z], true)[0]); vec![match r { Ok(v) => v, Err(v) => v }] }
+            Nw::V(o) => { let f = |x: Vec64| to_vec64(&val(&from_vec64(&x), false)); let j = |x: Vec64| to_mat64(&jv(&from_vec64(&x), false), n);
+                          let r = if variant == "vecj" { o.solve_jacobian(&f, &j) } else { o.solve(&f) }; take(r.map(|x| from_vec64(&x)).map_err(|x| from_vec64(&x))) }
+            Nw::W(o) => { let f = |z: Vector<Cmplx>| Vector::<Cmplx>::create(val(&z.vec, true)); let j = |z: Vector<Cmplx>| to_cmat(&jv(&z.vec, true), n);
+                          let r = if variant == "cvecj" { o.solve_jacobian(&f, &j) } else { o.solve(&f) }; take(r.map(|x| x.vec.clone()).map_err(|x| x.vec.clone())) }
+        }
+    }
+    fn solve(&self, fam: &Fam, variant: &str, rec: &Rec, cap: usize, cfg: &Cfg) -> Result<Result<Vec<Cmplx>, Vec<Cmplx>>, String> {
         let n = fam.n;
+        let add = |v: Vec<Cmplx>, y: &[Cmplx]| -> Vec<Cmplx> { if fam.reent == 0 { return v; } let d = self.reent(fam, variant, cfg, y); v.iter().zip(d.iter()).map(|(a, b)| *a + *b).collect() };
         // watchdog: a solver that never stops evaluating is cut off by a panic raised from inside the user closure
         // (data, reported as a violation of "bounded work"), instead of hanging the harness
         let tick = |rec: &Rec| { if rec.borrow().len() > cap { panic!("verif: evaluation budget exceeded"); } };
         match self {
-            Nw::F(o) => { let f = |x: f64| -> f64 { tick(rec); rec.borrow_mut().push((false, vec![c(x, 0.0)])); fam.scalar(c(x, 0.0)).real };
+            Nw::F(o) => { let f = |x: f64| -> f64 { tick(rec); rec.borrow_mut().push((false, vec![c(x, 0.0)])); add(vec![fam.scalar(c(x, 0.0))], &[c(x, 0.0)])[0].real };
                 guarded(|| o.solve(&f)).map(|r| r.map(|x| vec![c(x, 0.0)]).map_err(|x| vec![c(x, 0.0)])) }
-            Nw::C(o) => { let f = |z: Cmplx| -> Cmplx { tick(rec); rec.borrow_mut().push((false, vec![z])); fam.scalar(z) };
+            Nw::C(o) => { let f = |z: Cmplx| -> Cmplx { tick(rec); rec.borrow_mut().push((false, vec![z])); add(vec![fam.scalar(z)], &[z])[0] };
                 quiet(|| guarded(|| o.solve(&f))).map(|r| r.map(|z| vec![z]).map_err(|z| vec![z])) }
             Nw::V(o) => {
-                let f = |x: Vec64| -> Vec64 { tick(rec); let z = from_vec64(&x); rec.borrow_mut().push((false, z.clone())); if z.len() != n { return x; } to_vec64(&fam.system(&z)) };
+                let f = |x: Vec64| -> Vec64 { tick(rec); let z = from_vec64(&x); rec.borrow_mut().push((false, z.clone())); if z.len() != n { return x; } to_vec64(&add(fam.system(&z), &z)) };
                 let j = |x: Vec64| -> Mat64 { tick(rec); let z = from_vec64(&x); rec.borrow_mut().push((true, z.clone())); to_mat64(&fam.jac(&z), n) };
                 let r = if variant == "vecj" { guarded(|| o.solve_jacobian(&f, &j)) } else { guarded(|| o.solve(&f)) };
                 r.map(|r| r.map(|x| from_vec64(&x)).map_err(|x| from_vec64(&x))) }
             Nw::W(o) => {
-                let f = |z: Vector<Cmplx>| -> Vector<Cmplx> { tick(rec); rec.borrow_mut().push((false, z.vec.clone())); if z.size() != n { return z; } Vector::<Cmplx>::create(fam.system(&z.vec)) };
+                let f = |z: Vector<Cmplx>| -> Vector<Cmplx> { tick(rec); rec.borrow_mut().push((false, z.vec.clone())); if z.size() != n { return z; } Vector::<Cmplx>::create(add(fam.system(&z.vec), &z.vec)) };
                 let j = |z: Vector<Cmplx>| -> Matrix<Cmplx> { tick(rec); rec.borrow_mut().push((true, z.vec.clone())); to_cmat(&fam.jac(&z.vec), n) };
                 let r = if variant == "cvecj" { guarded(|| o.solve_jacobian(&f, &j)) } else { guarded(|| o.solve(&f)) };
                 r.map(|r| r.map(|x| x.vec.clone()).map_err(|x| x.vec.clone())) }
@@ -281,8 +318,9 @@ fn one_solve(out: &mut Out, x: &Ctx, call: i64, nw: &Nw, cfg: &Cfg, expect: &str
     out.ev(json!({"op": "begin", "mode": x.mode, "cid": x.cid, "call": call, "variant": x.variant, "n": n, "maxit": cfg.limit, "pb": pb, "g": pbits(&cfg.guess, cx),
                   "tolb": bits(cfg.tol), "deltab": bits(cfg.delta)}));
     let rec: Rec = RefCell::new(vec![]);
-    let cap = 50 * (cfg.limit + 1) * (2 * n + 3) + 200;
-    let res = nw.solve(x.fam, x.variant, &rec, cap);
+    // (re-entrant cases run an inner solve per evaluation: a tighter budget keeps a non-terminating solver cheap to expose; it is still above the work bound)
+    let cap = if x.fam.reent != 0 { 2 * (cfg.limit + 1) * (2 * n + 3) + 20 } else { 50 * (cfg.limit + 1) * (2 * n + 3) + 200 };
+    let res = nw.solve(x.fam, x.variant, &rec, cap, cfg);
     for (idx, (isjac, z)) in rec.borrow().iter().enumerate() {
         out.ev(json!({"op": "eval", "cid": x.cid, "call": call, "idx": idx + 1, "fn": if *isjac { "jac" } else { "f" }, "x": pbits(z, cx)}));
     }
@@ -608,6 +646,28 @@ pub fn gen(tier: &str, seed: u64, out: &mut Out) {
                      ("cvec", 2, "cvec", 2, Some(("cvec", 2))), ("cvec", 2, "cvec", 1, Some(("vec", 2))), ("f64", 1, "vec", 2, Some(("vec", 2))), ("vec", 3, "f64", 1, Some(("vec", 3)))]);
         for (q, (o, n, k, cn, g)) in list.into_iter().enumerate() { let k = nested_case(&mut rng, o, n, k, cn, g, (q + rep) % 2 == 1); push(out, k); }
     }
+    // (a7) SAME-OBJECT re-entrancy: the user function of a solve calls solve on the very object that is solving (reent 1: inner problem converging
+    //      at once; 2: inner root-free problem using the whole budget; 3: a second object whose function calls back into the first), every variant;
+    //      in-basin outer problems must succeed, root-free outer problems must stop within the budget (the evaluation watchdog turns a hang into a panic)
+    for rep in 0..(if quick { 2 } else { 10 }) { for v in VARIANTS { for re in 1..=3i64 { for outer in ["basin", "rootfree"] {
+        let cx = matches!(v, "cx" | "cvec" | "cvecj"); let sys = !matches!(v, "f64" | "cx");
+        let n = if sys { 1 + (rep + re as usize) % 3 } else { 1 };
+        let mut k;
+        if outer == "basin" {
+            let (k0, root, rad) = if sys { system_basin(&mut rng, cx, n) } else { let (k, r, rho) = scalar_basin(&mut rng, cx); (k, vec![r], rho) };
+            k = k0;
+            let guess: Vec<Cmplx> = root.iter().map(|z| *z + unit_dir(&mut rng, cx) * (unif(&mut rng, 0.0, 0.999) * rad * if sys { unif(&mut rng, 0.0, 1.0) } else { 1.0 })).collect();
+            let limit = if rng.gen_bool(0.85) { rng.gen_range(NEED..=24) } else { rng.gen_range(1..NEED) };
+            k["guess"] = jcvec(&guess); k["root"] = jcvec(&root); k["basin"] = json!(true); k["limit"] = json!(limit); k["expect"] = json!(if limit >= NEED { "ok" } else { "any" });
+            k["tol"] = jhex(pick_tol(&mut rng).max(1.0e-11));
+        } else {
+            let im = |rng: &mut StdRng, m: f64| if cx { unif(rng, -m, m) } else { 0.0 };
+            let guess: Vec<Cmplx> = (0..n).map(|_| if cx && !sys { c(unif(&mut rng, -1.0, 1.0), unif(&mut rng, -1.0, 1.0)) } else { c(unif(&mut rng, 0.3, 3.0) * if rng.gen_bool(0.5) { 1.0 } else { -1.0 }, im(&mut rng, 2.0)) }).collect();
+            k = json!({"fam": "rootfree", "guess": jcvec(&guess), "basin": false, "limit": rng.gen_range(2..=20), "expect": "err", "tol": jhex(pick_tol(&mut rng))});
+        }
+        k["variant"] = json!(v); k["n"] = json!(n); k["delta"] = jhex(pick_delta(&mut rng)); k["reent"] = json!(re);
+        push(out, k);
+    } } } }
     // (a5) special values: roots and / or guesses with components exactly -1, 0, -0, 1, +-2^k, all equal, guess = root; every variant
     for _ in 0..(if quick { 3 } else { 30 }) { for v in VARIANTS { for mode in 0..4usize {
         let sys = !matches!(v, "f64" | "cx");
